@@ -173,21 +173,20 @@ def run(ctx, prop):
         tb = outs[5]
         validate(ctx, tr + tb, prop, "all")
     else:
+        # thorough: the exhaustive families unstrided (or lightly strided) and larger simulations
         tr = generate(ctx, "ExprGenEx1.cfg", "ex1", thresholds=(0, 3))
         validate(ctx, tr, prop, "ex1")
         tr = generate(ctx, "ExprGenEx2s.cfg", "ex2s", thresholds=(0,))
-        tr += generate(ctx, "ExprGenEx3.cfg", "ex3", stride=4, thresholds=(0,))
+        tr += generate(ctx, "ExprGenEx3.cfg", "ex3", stride=8, thresholds=(0,))
         validate(ctx, tr, prop, "ex2s3")
-        tr = generate(ctx, "ExprGenEx2.cfg", "ex2", stride=40, thresholds=(0,))
-        validate(ctx, tr, prop, "ex2")
-        tr = generate(ctx, "ExprGenMap.cfg", "map", thresholds=(0,))
-        tr += generate(ctx, "ExprGenMap6.cfg", "map6", stride=4, thresholds=(0,))
-        tr += generate(ctx, "ExprGenMap2.cfg", "map2", stride=64, thresholds=(0,))
-        validate(ctx, tr, prop, "map")
-        tr = generate(ctx, "ExprGenSim_small.cfg", "simsmall", simulate="num=500", depth=9, thresholds=(0, 4))
-        validate(ctx, tr, prop, "small")
-        tb = generate(ctx, "ExprGenSim_big.cfg", "simbig", simulate="num=100", depth=8, thresholds=(0, 6))
-        validate(ctx, tb, prop, "big")
+        tr = generate(ctx, "ExprGenEx2.cfg", "ex2", stride=120, thresholds=(0,))
+        tr += generate(ctx, "ExprGenMap.cfg", "map", thresholds=(0,))
+        tr += generate(ctx, "ExprGenMap6.cfg", "map6", stride=8, thresholds=(0,))
+        tr += generate(ctx, "ExprGenMap2.cfg", "map2", stride=128, thresholds=(0,))
+        validate(ctx, tr, prop, "ex2map")
+        tr = generate(ctx, "ExprGenSim_small.cfg", "simsmall", simulate="num=120", depth=9, thresholds=(0, 4))
+        tb = generate(ctx, "ExprGenSim_big.cfg", "simbig", simulate="num=30", depth=8, thresholds=(0, 6))
+        validate(ctx, tr + tb, prop, "sims")
     ctx.exhaustive = False
     hook_finish(ctx, prop, hk)
 
